@@ -70,7 +70,7 @@ pub broadcast proof fn axiom_string_utf8(s: String) ensures #[trigger] is_utf8(s
 pub proof fn axiom_string_ext(a: String, b: String) requires sbytes(a) == sbytes(b) ensures a == b {}
 /// (allocations never exceed isize::MAX bytes)
 pub assume_specification[ String::len ](s: &String) -> (r: usize) ensures r == sbytes(*s).len(), r <= 0x7fff_ffff_ffff_ffff;
-pub assume_specification[ String::as_bytes ](s: &String) -> (r: &[u8]) ensures r@ == sbytes(*s);
+pub assume_specification[ String::as_bytes ](s: &String) -> (r: &[u8]) ensures r@ == sbytes(*s), r@.len() <= 0x7fff_ffff_ffff_ffff;
 /// documented safety precondition: the bytes must be valid UTF-8 (otherwise the String is invalid: undefined behaviour)
 pub assume_specification[ String::from_utf8_unchecked ](v: Vec<u8>) -> (r: String)
     requires is_utf8(v@)
